@@ -1147,6 +1147,13 @@ impl<'de> de::Deserializer<'de> for &mut Deserializer<'de> {
                         // Advance by bytes actually consumed, not total_bytes, so
                         // the cursor is correct if the visitor short-circuits.
                         self.input.set_position((pos + access.offset) as u64);
+                        if result.is_ok() && access.remaining > 0 {
+                            // e.g. a fixed-size array shorter than the vector: the tail must not be taken for the next value
+                            return Err(Error::msg(format!(
+                                "{} vector elements left unread by the Rust type",
+                                access.remaining
+                            )));
+                        }
                         return result;
                     }
 
@@ -1176,7 +1183,7 @@ impl<'de> de::Deserializer<'de> for &mut Deserializer<'de> {
                     self.expect_type = expect.clone();
                     self.wire_type = wire.clone();
                 }
-                let result = visitor.visit_seq(Compound::new(
+                let mut elements = Compound::new(
                     self,
                     Style::Vector {
                         len,
@@ -1184,7 +1191,16 @@ impl<'de> de::Deserializer<'de> for &mut Deserializer<'de> {
                         wire,
                         exact_primitive,
                     },
-                ));
+                );
+                let result = visitor.visit_seq(&mut elements);
+                if let (Ok(_), Style::Vector { len, .. }) = (&result, &elements.style) {
+                    if *len > 0 {
+                        // e.g. a fixed-size array shorter than the vector: the tail must not be taken for the next value
+                        return Err(Error::msg(format!(
+                            "{len} vector elements left unread by the Rust type"
+                        )));
+                    }
+                }
                 result
             }
             (TypeInner::Record(_), TypeInner::Record(_)) => {
